@@ -116,6 +116,10 @@ def run_impl(m):
             return 'ok %s %s %s' % (flist(G.causality_xy.reshape(-1)), flist(G.causality_yx.reshape(-1)),
                                     flist(G.simultaneous_causality.reshape(-1)))
         return call(f)
+    if op == 'afreq':
+        _, gr, ts = mods()
+        G = gr.GrangerAnalyzer(ts.TimeSeries(np.zeros((2, 8)), sampling_rate=m['Fs']), order=1, n_freqs=m['nf'])
+        return call(lambda: 'ok ' + flist(np.asarray(G.frequencies)))
     if op == 'defij':
         data = np.zeros((m['n'], 8))
         _, gr, ts = mods()
@@ -137,6 +141,9 @@ def line_of(m):
         return 'C12 tf %d %d %s' % (m['nf'], m['P'], m['a'])
     if op in ('sm', 'gc', 'gcs'):
         return 'C12 %s %d %d %s %s' % (op, m['nf'], m['P'], m['a'], m['cov'])
+    if op == 'afreq':
+        from common import f2x
+        return 'C12 afreq %s %d' % (f2x(m['Fs']), m['nf'])
     if op == 'defij':
         return 'C12 defij %d' % m['n']
     if op == 'ana':
@@ -278,6 +285,14 @@ def judge(m, impl, clause):
         if m.get('zero') in ('yx', 'both') and np.abs(fx2y).max() > 1e-10:
             return fail('no-coupling', 'a[:,1,0] = 0 but f_x2y = %.3g' % np.abs(fx2y).max())
         return None
+    if op == 'afreq':
+        fr = np.array(parse_flist(g[0]))
+        wgrid = ar.granger_causality_xy(np.zeros((1, 2, 2)), np.eye(2), n_freqs=m['nf'])[0]
+        if len(fr) != len(wgrid) or np.abs(fr - wgrid * m['Fs'] / (2 * np.pi)).max() > 1e-9 * m['Fs']:
+            f = fail('axis-not-the-spectral-grid', 'analyzer.frequencies is not Fs·w/2π for the grid w of granger_causality_xy')
+            f.key = 'analyzer/frequencies/axis-not-the-spectral-grid'
+            return f
+        return None
     if op == 'gcs':
         return None        # judged through its 'gc' partner (clause relabel); here only model-vs-implementation
     if op == 'defij':
@@ -342,7 +357,7 @@ def cases(rng, tier, seed):
         P = int(nrng.randint(1, 7))
         zero = [None, None, 'xy', 'yx', 'both'][i % 5]
         a = stable_var(nrng, P, float(nrng.uniform(0.3, 0.92)), zero)
-        cov = gen_cov(nrng, 'diag' if i % 3 == 0 else 'full')
+        cov = gen_cov(nrng, 'diag' if i % 3 == 0 else 'full') * float(nrng.choice([1.0, 1.0, 1e-6, 1e-12, 1e4]))
         nf = int(nrng.choice([8, 9, 16, 31, 64] + ([255, 1024] if big else [])))
         par = 'odd' if nf % 2 else 'even'
         base = {'P': P, 'nf': nf, 'a': aflat(a), 'zero': zero}
@@ -353,11 +368,14 @@ def cases(rng, tier, seed):
             out.append(mk_case(dict(base, op='gcs', cov=aflat(cov)), 'granger-relabelled/' + par, cmp_groups('lllcccc')))
     for n in range(0, 7):
         out.append(mk_case({'op': 'defij', 'n': n}, 'analyzer/default-ij', None))
+    for nf in [1, 2, 3, 8, 9, 16, 33, 64, 1024]:
+        Fs = float(nrng.choice([1.0, 2.0, 0.5, 1000.0, 3.7]))
+        out.append(mk_case({'op': 'afreq', 'Fs': Fs, 'nf': nf}, 'analyzer/frequencies', cmp_groups('f')))
     n_an = 24 if not big else 150
     for i in range(n_an):
         nproc = int(nrng.choice([2, 3, 4]))
         N = int(nrng.choice([128, 200]))
-        data = sim_data(nrng, nproc, N)
+        data = sim_data(nrng, nproc, N) * float(nrng.choice([1.0, 1e-3, 50.0]))
         allp = [(a, b) for a in range(nproc) for b in range(nproc) if a != b]
         kind = i % 4
         if kind == 0:
